@@ -58,6 +58,11 @@ def make_workspace(rng, ncrates):
             elif r < 0.72:
                 f["items"].insert(0, {"kind": "use", "tree": ("upath", ocn, ("urename", w, w))})
                 style[w] = "as"
+            elif r < 0.84 and len(crates) >= 3:
+                # through a re-export: named via a third crate that generates a module of its own but does not define the type
+                via = rng.choice([x for x in crates if x not in (c, oc)]).replace("-", "_")
+                f["items"].insert(0, {"kind": "use", "tree": ("upath", via, ("uname", w))})
+                style[w] = "use-reexport"
             else:
                 style[w] = "none"
         sub = rng.choice(["", "models/", "a/b/"])
@@ -168,6 +173,11 @@ def run(check):
                             st = f["style"][wname]
                             if st == "none":
                                 continue      # a reference without any `use` or qualification names no crate: out of scope
+                            if re.search(r"\b(?:self|crate|super)::%s\b" % re.escape(wname), render_file(f["file"])):
+                                # `self::T` next to `use other::T;` records a second import of T (from the current crate);
+                                # which one HashSet::find returns depends on the hash seed (the ambiguous class of C06)
+                                check.count("ambiguous: qualified self/crate/super path next to a use")
+                                continue
                             # completeness is claimed only for plain / grouped `use` of un-renamed types
                             kid = {"as": "use-as-ignored"}.get(st)
                             if kid is None and item_renamed(files, oc, wname):
